@@ -7,6 +7,8 @@ COMMON_ASSUME = [
     "TLC integers are 32-bit: scenario amounts are small; large values enter through the saturating abstraction of DESIGN 3.3",
 ]
 
+ARITH_ASSUME = ["big-number scenarios use one stream between two accounts in one denomination; a zero time beyond year 9999 or a duration above 2^63-1 seconds may be refused by the chain (not 'accepted' in the sense of the property)",
+                "mc/ArithAsBuilt.tla is a vector generator only; verdicts come from StreamArith.tla evaluated by Apalache over the integers"]
 ENT_MC = {"quick": [dict(module="MC_Ent.tla", cfg="MC_Ent_quick.cfg", workers=16, timeout=600)],
           "thorough": [dict(module="MC_Ent.tla", cfg="MC_Ent_full.cfg", workers=16, timeout=3000)]}
 ENT_SIM = {"quick": [dict(module="MC_Ent.tla", cfg="MC_Ent_sim.cfg", num=40, depth=120, procs=4)],
@@ -55,8 +57,8 @@ def c06_custom(pid, tier, plan, scr, hbin, specdir):
     sd = vlib.seed()
     cov = dict(states=0, transitions=0, traces_validated_against_impl=0, samples=[], mc_runs=[], recordings=[],
                steps_validated=0, inputs_offered_to_checktx=0, admitted=0, notes=[], findings_other_properties=0)
-    cfgs = [("MC_Adm_1F.cfg", None), ("MC_Adm_1T.cfg", None), ("MC_Adm_2F.cfg", 1200 if tier == "quick" else None),
-            ("MC_Adm_2T.cfg", 800 if tier == "quick" else None)]
+    cfgs = [("MC_Adm_1F.cfg", None), ("MC_Adm_1T.cfg", None), ("MC_Adm_2F.cfg", 2500 if tier == "quick" else None),
+            ("MC_Adm_2T.cfg", 1500 if tier == "quick" else None)]
     if tier == "thorough":
         cfgs += [("MC_Adm_3F.cfg", 20000)]
     recs = []
@@ -376,7 +378,7 @@ PLANS = {
                 rule="as C04 plus vesting purchasers in the random histories; monitors: locked drops only by min(fee, locked) in a registry tx of the payer and equals the spent increase; completion never raises spendable", assumptions=COMMON_ASSUME),
     "C02": dict(mc=both(FEE_MC), sim=both(FEE_SIM, ENT_SIM), sweep=both(FEE_SWEEP, AUTH_SWEEP), random=rnd("mix", (400, 3), (2500, 20)),
                 rule="supply and sum of ALL balances (iteration incl. unmodelled accounts) after every step of mixed histories; mint/burn events of every ABCI response equal the supply delta; supply changes only in BeginBlock by the completed orders' amounts", assumptions=COMMON_ASSUME),
-    "C13": dict(sweep=AUTH_SWEEP, random=rnd("mix", (300, 2), (1500, 10)),
+    "C13": dict(mc=both(REG_MC, STR_MC), sweep=AUTH_SWEEP, random=rnd("mix", (300, 2), (1500, 10)),
                 rule="TLC breadth-first sweep MC_Auth: every message type x every account as signer x every account as named address in three encodings (foreign key, proper signature, Exec wrapper) from a prepared state; each behaviour replayed on the real app; state digest before/after compared", assumptions=COMMON_ASSUME),
     "C14": dict(mc=both(FEE_MC, ENT_MC), sim=both(FEE_SIM, ENT_SIM), sweep=both(FEE_SWEEP, PAR_SWEEP), random=rnd("mix", (400, 3), (2500, 20)),
                 rule="begin/end block and commit wrapped in recover (a panic is the observation halted); failed and panicking txs compared on the full projection (only ante effects may remain); multi-message txs with the k-th message failing", assumptions=COMMON_ASSUME),
@@ -390,12 +392,12 @@ PLANS = {
                 rule="as C07; view = counters, limits, reported storage, in-state key sets (point queries and store iteration)", assumptions=COMMON_ASSUME),
     "C09": dict(mc=REG_MC, sim=REG_SIM, sweep=REG_SWEEP, random=rnd("reg", (300, 3), (2000, 20)),
                 rule="as C07; view = ids, metadata of every registration ever made, owner-only writes", assumptions=COMMON_ASSUME),
-    "C10": dict(mc=STR_MC, sim=STR_SIM, sweep=STR_SWEEP, random=rnd("str", (300, 3), (2000, 20)),
+    "C10": dict(arith=True, mc=STR_MC, sim=STR_SIM, sweep=STR_SWEEP, random=rnd("str", (300, 3), (2000, 20)),
                 rule="TLC exhaustive on MC_Str (create/claim/top-up/rate change/cancel, two denominations, time advances 0/sub-second/seconds/beyond zero time, gov fee changes, sends to escrow); schedules executed on the real app; escrow balance, every stream, balances of all parties and the registered module invariant compared after every step", assumptions=COMMON_ASSUME),
-    "C11": dict(mc=STR_MC, sim=STR_SIM, sweep=STR_SWEEP, random=rnd("str", (300, 3), (2000, 20)),
-                rule="as C10; view = deposit, last release time, deposit-zero time of every stream, claim responses; monitor Sustained", assumptions=COMMON_ASSUME),
-    "C12": dict(mc=STR_MC, sim=STR_SIM, sweep=STR_SWEEP, random=rnd("str", (300, 3), (2000, 20)),
-                rule="as C10; monitors: a stream operation the specification accepts is not refused by the code, and no stream transaction panics", assumptions=COMMON_ASSUME),
+    "C11": dict(arith=True, mc=STR_MC, sim=STR_SIM, sweep=STR_SWEEP, random=rnd("str", (300, 3), (2000, 20)),
+                rule="as C10; view = deposit, last release time, deposit-zero time of every stream, claim responses; monitor Sustained. Big-number region (deposits to 2^200, rates to 2^63-1, durations of thousands of years, nanosecond block times): Apalache finds inputs on which a reading of the Go int64/uint64/Duration arithmetic (mc/ArithAsBuilt.tla) disagrees with StreamArith.tla in three input domains; witnesses + a boundary table are executed on the real app (one signed tx per block) and Apalache judges every recorded step against StreamArith.tla from the observed pre-state (ArithJudge.tla)", assumptions=COMMON_ASSUME + ARITH_ASSUME),
+    "C12": dict(arith=True, mc=STR_MC, sim=STR_SIM, sweep=STR_SWEEP, random=rnd("str", (300, 3), (2000, 20)),
+                rule="as C10; monitors: a stream operation the specification accepts is not refused by the code, and no stream transaction panics; big-number region as for C11 (verdicts Panicked / Refused of claim, cancel and affordable top-up)", assumptions=COMMON_ASSUME + ARITH_ASSUME),
     "C01": dict(custom=c01_custom,
                 rule="TLC exhaustive on MC_Abci (Crash enabled in every phase, Restart from the durable state, re-proposal of the interrupted block; invariants RestartResumesCommitted, DurableAgreesWithReference); behaviours with TLC-chosen crash points and mixed random histories with EVERY crash point are executed on three real replicas (MemDB uninterrupted; goleveldb crashed/restarted with interleaved CheckTx and queries; separate process with GOMAXPROCS=1 started >1.1 s later); app hash at every height, every tx result (code, data, gas wanted/used), and height/hash/state right after each restart are compared by TLC monitors",
                 assumptions=COMMON_ASSUME + ["crashes are placed between ABCI calls (inside Commit the atomicity is the SDK/DB's)", "nondeterministic statements on paths no transaction reaches are not observable"]),
